@@ -392,18 +392,21 @@ def _doc_violation(html, info):
             return (f'collapsed borders: writing the PDF painted {len(painted)} border lines, the collapsed '
                     f'borders of the {len(frags)} table fragment(s) are {len(direct)} lines'
                     + ('' if len(painted) != len(direct) else ' (same number, different lines or order)'))
-    for (_, _, t), frag_rows in zip(frags, all_rows):
+    for k, ((_, _, t), frag_rows) in enumerate(zip(frags, all_rows)):
         what = tables.geometry_violation(t, widths) or tables.final_columns_violation(t, widths)
         if what:
             return what
         continued = bool(frag_rows) and prev_last == frag_rows[0]
+        later = [r for rs in all_rows[k + 1:] for r in rs]
+        cut_bottom = bool(frag_rows) and bool(later) and later[0] == frag_rows[-1]
         prev_last = frag_rows[-1] if frag_rows else prev_last
         what = tables.rows_violation(t, continued) or tables.columns_violation(t)
         if what:
             return what
         if t.style['border_collapse'] == 'collapse':
             what = tables.painted_violation(
-                t, header_declared=bool(info['n_head']) if info else '<thead' in html)
+                t, header_declared=bool(info['n_head']) if info else '<thead' in html,
+                continued_top=continued if frag_rows else None, cut_bottom=cut_bottom if frag_rows else None)
             if what:
                 return what
     if info and info.get('kinds'):
@@ -715,7 +718,10 @@ class C10(PropCheck):
             'render, no negative column), rtl-columns-reversed-on-relayout (d13f52d: every fragment of the rtl '
             'table whose bottom border overflows the page shows finalColumns of the computed widths), '
             'collapsed-footer-line-off-by-one (4d1447f) and collapsed-dropped-header-shifts-borders (02afb22): '
-            'every fragment of the two documents painted by the real draw_collapsed_borders against the model')
+            'every fragment of the two documents painted by the real draw_collapsed_borders against the model; '
+            'a fixed family of collapsed tables with one row cut by a page break and further fragments after it '
+            '(with / without header / footer): skipped_rows, border_top_width and the skip_cell_border flags of '
+            'every table_layout call, and the painted lines of every fragment')
         docs.quiet()
         for name, html, replay_fn in (('collapsed-footer-line-off-by-one', FOOTER_LINE_HTML, footer_line_replay),
                                       ('collapsed-dropped-header-shifts-borders', DROPPED_HEADER_HTML,
@@ -725,6 +731,26 @@ class C10(PropCheck):
                 dargs, dout, _ = tables.draw_borders_case(t)
                 sec.add(sx.line('drawborders', *dargs), dout if not back else f'regressed:{name}',
                         meta={'html': html, 'info': None}, tags=[name])
+        # fixed family: collapsed tables without header / footer, one row cut by a page break, further
+        # fragments after it: the split bookkeeping of every table_layout call (skip flags included) and the
+        # painted lines of every fragment
+        for name, html in SPLIT_FLAG_FAMILY:
+            rec = tables.Recorder()
+            rec.current = (html, None)
+            with rec.installed():
+                document = docs.render(html)
+            meta = {'html': html, 'info': None}
+            seen = set()
+            for line, out, tags in tables.split_border_cases(rec.layouts):
+                if line not in seen:
+                    seen.add(line)
+                    sec.add(line, out, meta=meta, tags=[name])
+            for _, _, t in tables.table_fragments(document):
+                dargs, dout, _ = tables.draw_borders_case(t)
+                line = sx.line('drawborders', *dargs)
+                if line not in seen:
+                    seen.add(line)
+                    sec.add(line, dout, meta=meta, tags=[name])
         for name, html, replay_fn in (('fixed-negative-column', NEGATIVE_COLUMN_HTML, negative_column_replay),
                                       ('rtl-columns-reversed-on-relayout', RTL_REVERSED_HTML, rtl_reversed_replay)):
             rec = tables.Recorder()
@@ -1218,6 +1244,21 @@ def rtl_colgroup_replay():
     docs.quiet()
     document = docs.render(RTL_COLGROUP_HTML)
     return any(g.width < 0 for _, _, t in tables.table_fragments(document) for g in t.column_groups)
+
+
+def _split_flag_doc(head, foot, cut_row):
+    css = ('@page{size:200px 60px;margin:0}body{margin:0;font:10px weasyprint;line-height:10px}'
+           'table{border-collapse:collapse;width:100px}td{padding:0;border:2px solid black;vertical-align:top}')
+    tall = '<br>'.join(f'c{i}' for i in range(8))
+    rows = ['<tr><td>a</td><td>b</td></tr>'] + [f'<tr><td>e{i}</td><td>f</td></tr>' for i in range(9)]
+    rows.insert(cut_row, f'<tr><td>{tall}</td><td>d</td></tr>')
+    return (f'<style>{css}</style><table>' + ('<thead><tr><td>h</td><td>h</td></tr></thead>' if head else '') +
+            ('<tfoot><tr><td>g</td><td>g</td></tr></tfoot>' if foot else '') +
+            '<tbody>' + ''.join(rows) + '</tbody></table>')
+
+
+SPLIT_FLAG_FAMILY = [(f'split-flags-{"h" if h else ""}{"f" if f else ""}-{c}', _split_flag_doc(h, f, c))
+                     for h, f, c in ((False, False, 1), (False, False, 3), (True, False, 1), (False, True, 1))]
 
 
 RTL_REVERSED_HTML = (
